@@ -59,7 +59,7 @@ def run(tier):
     if res["nviol"] > len(res["viol"]):
         rep.notes.append("%d violations in total, first 25 of each (clause, cond) class kept" % res["nviol"])
     # 3. binding self-test
-    selftest(recs, wd)
+    _selftest_guarded(rep, selftest, recs, wd)
     return rep.finish(
         rule="case = one verify presentation (record field tokens, signature token, direct verdict, cached verdict) or one "
              "constructor call (name length, endpoint count, lifetime, accepted?); distinct by content; every verdict is "
@@ -97,3 +97,25 @@ def selftest(recs, wd):
     for i, (name, _) in enumerate(variants):
         if i > 0 and per[i] <= per[0]:
             raise vlib.ToolError("self-test %s: corrupted trace was not rejected (%s)" % (name, per))
+
+
+def _unknown_violations(rep):
+    """Violations of this run that no known finding explains (same matching as vlib.Report.finish)."""
+    import re as _re
+    known = [f for f in vlib.load_findings() if f.get("property") == rep.pid and f.get("status") == "known"]
+    return [v for v in rep.violations
+            if not any(f["clause"] == v["clause"] and f["site"] == v["site"] and _re.fullmatch(f["cond"], str(v["cond"])) for f in known)]
+
+
+def _selftest_guarded(rep, fn, *args):
+    """The binding self-test compares violation counts of corrupted copies with the intact copy. On a tree that
+    already violates the property the comparison can be inconclusive; then the violations are the result (exit 1),
+    not a tool error. On an otherwise clean run a failing self-test stays a tool error."""
+    try:
+        fn(*args)
+    except vlib.ToolError as e:
+        if _unknown_violations(rep):
+            rep.notes.append("binding self-test inconclusive on a violating trace: %s" % e)
+            vlib.log("self-test inconclusive (trace has new violations): %s" % e)
+        else:
+            raise
